@@ -202,6 +202,8 @@ def install(I):
         (v,) = args
         if v is NAN:
             return True
+        if v is INF:
+            return False
         if isinstance(v, Num):
             return False
         if isinstance(v, (int, Fraction)):
@@ -211,6 +213,20 @@ def install(I):
         I.raise_("TypeError", "must be real number", implicit=True)
 
     E["math.isnan"] = isnan
+
+    def isinf(I, args, kw):
+        (v,) = args
+        if v is INF:
+            return True
+        if v is NAN or isinstance(v, Num):
+            return False  # reals: a number of the model is finite
+        if isinstance(v, (int, Fraction)):
+            return False
+        if isinstance(v, float):
+            return math.isinf(v)
+        I.raise_("TypeError", "must be real number", implicit=True)
+
+    E["math.isinf"] = isinf
 
     def factorial(I, args, kw):
         (v,) = args
